@@ -16,6 +16,8 @@ mod c06;
 mod c07;
 mod c08;
 mod encp;
+mod eng;
+mod poly;
 mod fld;
 mod c09;
 mod c10;
@@ -90,7 +92,9 @@ fn main() {
         println!("oracle self-test ok: {notes:?}");
         return;
     }
-    mon::silence_panics();
+    if std::env::var("VERIF_DEBUG").is_err() {
+        mon::silence_panics();
+    }
     let mut rec = mon::Rec::new();
     let mut extra: Option<serde_json::Value> = None;
     match cmd.as_str() {
@@ -119,6 +123,16 @@ fn main() {
         other => {
             eprintln!("unknown command {other}");
             std::process::exit(2);
+        }
+    }
+    {
+        let cp = ad::CONVERSION_PANICS.lock().unwrap();
+        if let Some(first) = cp.first() {
+            rec.violation(
+                format!("{cmd}:library-panic-in-canonical-conversion"),
+                format!("the library panicked while converting a canonical field value ({} occurrences), e.g. {first}", cp.len()),
+                json!({"occurrences": cp.clone()}),
+            );
         }
     }
     let mut v = rec.to_json();
